@@ -309,7 +309,7 @@ type config struct {
 }
 
 func (c *config) String() string {
-	return fmt.Sprintf("n0=%d workers=%d newState=%v source-steps=%d maxLen=%d", c.n0, c.workers, c.newState, c.steps, c.maxLen)
+	return fmt.Sprintf("n0=%d workers=%d newState=%v source-steps=%d maxLen=%d listener-holds=%q", c.n0, c.workers, c.newState, c.steps, c.maxLen, string(c.holds))
 }
 
 // ---------------------------------------------------------------------------------------------------------------
